@@ -104,7 +104,8 @@ def gen_case(seed, i):
         gflags += ["--min", "0"]
     if rng.random() < 0.15:
         gflags += ["-H"]
-    fm = rng.choice(["none", "none", "short", "delay"])
+    # "foreign": the files belong to another user - the kernel then refuses O_NOATIME (EPERM), nothing else
+    fm = rng.choice(["none", "none", "short", "delay", "foreign"])
     return {"i": i, "cfg": cfg, "world": world.to_json(), "roots": rootargs, "filter": filt, "gflags": gflags, "dev2": dev2,
             "fault": fm, "seam_seed": rng.randint(1, 10**9)}
 
@@ -156,6 +157,9 @@ def plan_for(case, rd):
     if case["fault"] == "delay":
         return [rule(kind="open", act="delay:300", prefix=rd.world, count="inf"),
                 rule(kind="read", act="delay:200", prefix=rd.world, count="inf")]
+    if case["fault"] == "foreign":
+        return [rule(kind="noatime", act="errno:EPERM", prefix=os.path.join(rd.world, case["roots"][case["seam_seed"] % len(case["roots"])]) if case["seam_seed"] % 3 else rd.world,
+                     count="inf", proc="any")]
     return []
 
 
